@@ -236,9 +236,44 @@ func init() {
 		fr.i.event("formam.Decode", tag)
 		return symErr(fr, "formam.Decode")
 	}
-	intrinsics["(*github.com/gookit/rux/pkg/binding.stdValidator).Validate"] = func(fr *frame, args []value) value {
+	// gookit/validate is the boundary: rux's own stdValidator.Validate is
+	// executed; whether the rules hold is an arbitrary (symbolic) outcome.
+	runValidate := func(fr *frame) bool {
 		fr.i.event("Validate")
-		return symErr(fr, "Validate")
+		e := symErr(fr, "Validate")
+		fr.i.validateFailed = e.(iface).t != nil
+		return !fr.i.validateFailed
+	}
+	intrinsics["github.com/gookit/validate.New"] = func(fr *frame, args []value) value {
+		fr.i.event("validate.New", objTag(args[0]))
+		cell := zero(mustDeref(fr.fn.Signature.Results().At(0).Type()))
+		return &cell
+	}
+	intrinsics["github.com/gookit/validate.Struct"] = intrinsics["github.com/gookit/validate.New"]
+	intrinsics["(*github.com/gookit/validate.Validation).Validate"] = func(fr *frame, args []value) value {
+		return runValidate(fr)
+	}
+	intrinsics["(*github.com/gookit/validate.Validation).IsOK"] = func(fr *frame, args []value) value {
+		return !fr.i.validateFailed
+	}
+	intrinsics["(*github.com/gookit/validate.Validation).IsSuccess"] = intrinsics["(*github.com/gookit/validate.Validation).IsOK"]
+	intrinsics["(*github.com/gookit/validate.Validation).IsFail"] = func(fr *frame, args []value) value {
+		return fr.i.validateFailed
+	}
+	intrinsics["(github.com/gookit/validate.Errors).Empty"] = func(fr *frame, args []value) value {
+		return !fr.i.validateFailed
+	}
+	valErr := func(fr *frame, args []value) value {
+		if fr.i.validateFailed {
+			return fr.i.mkError("verif: validation failed")
+		}
+		return iface{}
+	}
+	intrinsics["(github.com/gookit/validate.Errors).OneError"] = valErr
+	intrinsics["(github.com/gookit/validate.Errors).ErrOrNil"] = valErr
+	intrinsics["(*github.com/gookit/validate.Validation).ValidateErr"] = func(fr *frame, args []value) value {
+		runValidate(fr)
+		return valErr(fr, args)
 	}
 	// encoders write an uninterpreted rendering E(obj)
 	encOut := func(fr *frame, kind string, w value, obj value) value {
